@@ -21,7 +21,7 @@ MANIFEST = dict(
           "_handle_long_word, _munge_whitespace) terminates within its fuel for every chunk list (C11_fuel_enough, C11_step_progress), "
           "yields lines of length <= w (C11_width), keeps every non-blank character exactly once and in order (C11_conservation), is the "
           "concatenation of the wrapped source lines with one empty line per source line that wraps to nothing (C11_line_structure, "
-          "C11_wrapped_lines_nonempty, C11_blank_line_only_from_blank_source, C11_every_source_line_starts_a_line), each line being the "
+          "C11_wrapped_lines_nonempty, C11_blank_line_only_from_blank_source, C11_blank_run_wraps_to_nothing, C11_every_source_line_starts_a_line), each line being the "
           "longest fitting prefix of the remaining chunks (C11_greedy, C11_greedy_inner), words longer than w being cut at a break point "
           "in [1, w] (C11_long_words_split, C11_break_point_bounds), and widths <= 0 rejected (C11_nonpositive_width_rejected); closed under "
           "the global context.  The model is tied to /repo on every run by executing the extracted model and the real widgets on the same "
